@@ -27,8 +27,10 @@ RULE = (
 )
 ASSUMPTIONS = [
     'unit equivariance is proved over the reals (exact arithmetic); "no more than rounding" in floating point is validated on the '
-    'grid at the tolerances of the property (1e-11 when no operand is float32, 1e-5 otherwise), not proved, for C07',
-    'a cell with a float32 operand is only required to be single-precision accurate, whatever the result dtype',
+    'grid at the tolerances of the property (1e-11 for a float64 result, 1e-5 for a float32 result), not proved, for C07',
+    'tolerance by the dtype of the RESULT: a float64 result must be within 1e-11 of the exact formula on the inputs as given '
+    '(a float32 or integer operand is an exactly representable input), a float32 result within 1e-5; in the direct re-expression '
+    'test the re-expressed operand is rounded once in its own element type, so a float32 operand re-expressed allows 2e-5',
     'moderate physical ranges (tofkernels.MODERATE) so that no float32 intermediate of a *value* overflows or underflows; a folded '
     'constant that is itself below the float32 normal range for some unit choice is NOT excused: it is reported under its own key '
     '(C07:f32-constant-underflow:<kernel>)',
@@ -303,32 +305,9 @@ def call_spec(spec, units, dtypes, vals):
 
 # ---- the contract ------------------------------------------------------------------------------------
 
-_PROBE = {}
-
-
-def scipp_pow_supported(dtype: str) -> bool:
-    """does scipp define `x ** 2` for this element type? (probed on the primitive, not assumed)"""
-    if dtype not in _PROBE:
-        import scipp as sc
-
-        try:
-            _ = sc.scalar(3, dtype=dtype) ** 2
-            _ = sc.scalar(3, dtype=dtype) ** sc.scalar(2, dtype=dtype)
-            _PROBE[dtype] = True
-        except sc.DTypeError:
-            _PROBE[dtype] = False
-    return _PROBE[dtype]
-
-
-#: operands the *formula* squares (E = m L^2 / 2 t^2, E = h^2 / 2 m lambda^2, Delta E: L1^2, L2^2)
-SQUARED = {
-    'energy_from_tof': ['tof', 'Ltotal'], 'energy_from_wavelength': ['wavelength'],
-    'energy_transfer_direct_from_tof': ['L1', 'L2'], 'energy_transfer_indirect_from_tof': ['L1', 'L2'],
-}
-
-
-def unsupported_by_scipp(name, dtypes) -> bool:
-    return any(not scipp_pow_supported(dtypes[a]) for a in SQUARED.get(name, []))
+scipp_pow_supported = tk.scipp_pow_supported
+SQUARED = tk.SQUARED
+unsupported_by_scipp = tk.unsupported_by_scipp
 
 
 def expected_dtype(rule, data, dtypes):
@@ -391,7 +370,6 @@ def check_generic_cell(ctx, spec, units, dtypes, vals, h, mn, report=True):
     found = []
     name = spec.name
     numeric = {a.name: dtypes[a.name] for a in spec.args if not a.vector}
-    cls = tk.precision_class(numeric)
     res = call_spec(spec, units, dtypes, vals)
     dcls = dtype_class(spec.dtype_rule, spec.data, numeric)
     if not res['ok']:
@@ -422,6 +400,7 @@ def check_generic_cell(ctx, spec, units, dtypes, vals, h, mn, report=True):
                           _wit(name, units, dtypes, vals, {'output': oname})))
         u = want_units[out]
         oscale = (1 / tk.SCALE[u[2:]]) if u.startswith('1/') else tk.SCALE[u]
+        cls = tk.result_class(dtype)  # tolerance of the RESULT dtype
         for i in range(n):
             ref = spec.ref(physical_of(spec, units, vals, i), h, mn)
             want = ref[out]
@@ -453,10 +432,12 @@ def check_generic_cell(ctx, spec, units, dtypes, vals, h, mn, report=True):
                 ctx.count(f'oracle:{name}:{cls}')
             if not err < tk.TOL[cls]:
                 under = f32_constant_underflow(name, units, dtypes)
-                found.append((f'C07:f32-constant-underflow:{name}' if under else f'C07:value:{name}',
+                mixed = tk.mixed_precision_key('C07', name, numeric, dtype, err)
+                found.append((f'C07:f32-constant-underflow:{name}' if under else (mixed or f'C07:value:{name}'),
                               (f'{name}: the folded constant m_n/2 underflows float32 for energy in {units[spec.data[1]]} (float32), tof in '
                                f'{units["tof"]} and flight path in angstrom; ' if under else '') +
-                              f'{name}: {oname} differs from the physical formula by {err:.3e} ({cls} precision) for units {units}: not unit-equivariant',
+                              (f'the float32 operand(s) {tk.f32_operands(numeric)} are combined in single precision before the promotion; ' if mixed else '') +
+                              f'{name}: {oname} ({dtype}) differs from the physical formula by {err:.3e} (allowed {tk.TOL[cls]}) for units {units}',
                               _wit(name, units, dtypes, vals, {'element': i, 'output': oname, 'got': repr(got), 'expected': f'{wantv:.17E}'})))
     return found, res
 
@@ -523,8 +504,8 @@ def _check_reexpression(ctx, spec, units, dtypes, vals, res, report=True):
         ctx.count('reexpress:skipped(no exact integer re-expression)')
         return found, units2
     res2 = call_spec(spec, units2, dtypes, vals2)
-    numeric = {x.name: dtypes[x.name] for x in spec.args if not x.vector}
-    cls = tk.precision_class(numeric)
+    # the re-expressed operand is rounded once in its own element type: that rounding is part of "no more than rounding"
+    arg_single = any(dtypes[g] == 'float32' for g in group)
     if not res2['ok']:
         found.append((f'C07:reexpress:{spec.name}', f'{spec.name} raised {res2["err"]} after re-expressing {a.name} from {units[a.name]} in {unit_to}',
                       _wit(spec.name, units, dtypes, vals, {'argument': a.name, 'unit_to': unit_to, 'values_to': newvals, 'units_to': units2, 'values_all_to': vals2})))
@@ -539,6 +520,7 @@ def _check_reexpression(ctx, spec, units, dtypes, vals, res, report=True):
             continue
         s1 = (1 / tk.SCALE[wu1[out][2:]]) if wu1[out].startswith('1/') else tk.SCALE[wu1[out]]
         s2 = (1 / tk.SCALE[wu2[out][2:]]) if wu2[out].startswith('1/') else tk.SCALE[wu2[out]]
+        cls = 'single' if (arg_single or d1 == 'float32') else 'double'
         if d1 != d2:
             found.append((f'C07:reexpress:{spec.name}', f'{spec.name}: result dtype changes from {d1} to {d2} when {a.name} is given in {unit_to}',
                           _wit(spec.name, units, dtypes, vals, {'argument': a.name, 'unit_to': unit_to, 'units_to': units2, 'values_all_to': vals2})))
@@ -565,7 +547,9 @@ def _check_reexpression(ctx, spec, units, dtypes, vals, res, report=True):
                 ctx.count(f'reexpress:{spec.name}')
             if not err < 2 * tk.TOL[cls]:
                 under = f32_constant_underflow(spec.name, units, dtypes) or f32_constant_underflow(spec.name, units2, dtypes)
-                found.append((f'C07:f32-constant-underflow:{spec.name}' if under else f'C07:reexpress:{spec.name}',
+                numeric = {x.name: dtypes[x.name] for x in spec.args if not x.vector}
+                mixed = tk.mixed_precision_key('C07', spec.name, numeric, d1, err)
+                found.append((f'C07:f32-constant-underflow:{spec.name}' if under else (mixed or f'C07:reexpress:{spec.name}'),
                               f'{spec.name}: physical result changes by {err:.3e} relative when {a.name} is given in {unit_to} instead of {units[a.name]}'
                               + (' (folded float32 constant underflows)' if under else ''),
                               _wit(spec.name, units, dtypes, vals, {'argument': a.name, 'unit_to': unit_to, 'values_to': newvals, 'units_to': units2, 'values_all_to': vals2, 'element': i,
@@ -586,7 +570,7 @@ def check_elastic_cell(ctx, kernel, units, dtypes, values, h, mn, report=True):
     found = []
     name = kernel.name
     res = c01.call_kernel(kernel, units, dtypes, '1d', values)
-    cls = tk.precision_class(dtypes)
+    cls = tk.result_class(res.get('dtype', 'float64'))  # tolerance of the RESULT dtype
     dcls = '+'.join(tk.SHORT[dtypes[a]] for a in kernel.data)
     vals = {a: values[a] for a in values}
     if not res['ok']:
@@ -612,8 +596,10 @@ def check_elastic_cell(ctx, kernel, units, dtypes, values, h, mn, report=True):
         if report:
             ctx.count(f'oracle:{name}:{cls}')
         if not err < tk.TOL[cls]:
-            found.append((f'C07:value:{name}',
-                          f'{name} differs from the physical formula by {err:.3e} ({cls} precision) for units {units}: not unit-equivariant',
+            mixed = tk.mixed_precision_key('C07', name, dtypes, res['dtype'], err)
+            found.append((mixed or f'C07:value:{name}',
+                          (f'the float32 operand(s) {tk.f32_operands(dtypes)} are combined in single precision before the promotion; ' if mixed else '') +
+                          f'{name} ({res["dtype"]}) differs from the physical formula by {err:.3e} (allowed {tk.TOL[cls]}) for units {units}',
                           _wit(name, units, dtypes, vals, {'element': i, 'got': repr(got), 'expected': f'{want:.17E}'})))
     return found, res
 
@@ -630,7 +616,8 @@ def reexpress_elastic(ctx, kernel, units, dtypes, values, res, h, mn, report=Tru
     unit_to, newvals = re
     units2, values2 = {**units, a: unit_to}, {**values, a: newvals}
     res2 = c01.call_kernel(kernel, units2, dtypes, '1d', values2)
-    cls = tk.precision_class(dtypes)
+    # the re-expressed operand is rounded once in its own element type; otherwise the tolerance of the result dtype
+    cls = 'single' if (dtypes[a] == 'float32' or res['dtype'] == 'float32') else 'double'
     w = _wit(kernel.name, units, dtypes, values, {'argument': a, 'unit_to': unit_to, 'values_to': newvals})
     if not res2['ok']:
         found.append((f'C07:reexpress:{kernel.name}', f'{kernel.name} raised {res2["err"]} after re-expressing {a} in {unit_to}', w))
@@ -650,7 +637,7 @@ def reexpress_elastic(ctx, kernel, units, dtypes, values, res, h, mn, report=Tru
         if report:
             ctx.count(f'reexpress:{kernel.name}')
         if not err < 2 * tk.TOL[cls]:
-            found.append((f'C07:reexpress:{kernel.name}',
+            found.append((tk.mixed_precision_key('C07', kernel.name, dtypes, res['dtype'], err) or f'C07:reexpress:{kernel.name}',
                           f'{kernel.name}: physical result changes by {err:.3e} relative when {a} is given in {unit_to} instead of {units[a]}',
                           {**w, 'element': i, 'got_from': repr(x1), 'got_to': repr(x2)}))
     return found
@@ -686,7 +673,7 @@ def correspond(ctx):
     k = 0
     maxdev = {'double': 0.0, 'single': 0.0}
     for kernel, units, dtypes, res in jobs:
-        cls = tk.precision_class(dtypes)
+        cls = tk.result_class(res.get('dtype', 'float64'))
         ident = ('corr', kernel.name, tuple(sorted(units.items())), tuple(sorted(dtypes.items())))
         ctx.case(ident, True, sample={'kernel': kernel.name, 'units': units, 'dtypes': dtypes,
                                       'impl': res.get('dtype', res.get('err')), 'model': outs[k]})
@@ -782,7 +769,7 @@ def _correspond_extra(ctx, h, mn):
         if tk.LONG.get(tag) != impl[0]:
             ctx.disagree({'kernel': kind, 'case': ident}, impl[0], tag, 'result dtype')
             continue
-        tol = 1e-5 if ('float32' in str(ident)) else 1e-11
+        tol = tk.TOL[tk.result_class(impl[0])]  # tolerance of the RESULT dtype
         if kind == 'tas':
             scale = sum(abs(float(x)) for x in ident[3][:2]) or 1.0
             dev = abs(impl[1] - mval) / max(scale, abs(mval))
@@ -947,14 +934,15 @@ def _replay_reexpress_elastic(kernel, w, res):
     if not res2['ok']:
         return [(f'C07:reexpress:{kernel.name}', 'raised', w)]
     s1, s2 = tk.out_scale(kernel, w['units']), tk.out_scale(kernel, units2)
-    cls = tk.precision_class(w['dtypes'])
+    cls = 'single' if (w['dtypes'][a] == 'float32' or res['dtype'] == 'float32') else 'double'
     if res2['dtype'] != res['dtype']:
         found.append((f'C07:reexpress:{kernel.name}', 'dtype changes', w))
     for i in range(len(res['out'])):
         p1, p2 = tk.exact(float(res['out'][i])) * s1, tk.exact(float(res2['out'][i])) * s2
         err = float(abs(p1 - p2) / abs(p1)) if p1 != 0 else math.inf
         if not err < 2 * tk.TOL[cls]:
-            found.append((f'C07:reexpress:{kernel.name}', f'changes by {err:.3e}', w))
+            found.append((tk.mixed_precision_key('C07', kernel.name, w['dtypes'], res['dtype'], err) or f'C07:reexpress:{kernel.name}',
+                          f'changes by {err:.3e}', w))
     return found
 
 
@@ -964,8 +952,8 @@ def _replay_reexpress_generic(spec, w, res):
     if not res2['ok']:
         return [(f'C07:reexpress:{spec.name}', 'raised', w)]
     found = []
-    numeric = {x.name: w['dtypes'][x.name] for x in spec.args if not x.vector}
-    cls = tk.precision_class(numeric)
+    group = next((g for g in spec.tied if w['argument'] in g), (w['argument'],))
+    arg_single = any(w['dtypes'][g] == 'float32' for g in group)
     wu1, wu2 = spec.out_unit(w['units']), spec.out_unit(units2)
     for out in spec.outputs:
         u1, d1, a1 = res['outs'][out]
@@ -977,10 +965,13 @@ def _replay_reexpress_generic(spec, w, res):
             if math.isnan(x1) and math.isnan(x2):
                 continue
             p1, p2 = tk.exact(x1) * s1, tk.exact(x2) * s2
+            cls = 'single' if (arg_single or d1 == 'float32') else 'double'
             scale = max(abs(p1), Decimal('0.1')) if spec.angle else abs(p1)
             err = float(abs(p1 - p2) / scale) if scale else math.inf
             if not err < 2 * tk.TOL[cls]:
-                found.append((f'C07:reexpress:{spec.name}', f'changes by {err:.3e}', w))
+                numeric = {x.name: w['dtypes'][x.name] for x in spec.args if not x.vector}
+                found.append((tk.mixed_precision_key('C07', spec.name, numeric, d1, err) or f'C07:reexpress:{spec.name}',
+                              f'changes by {err:.3e}', w))
     return found
 
 
